@@ -641,28 +641,58 @@ func chainConcatOrder(c *core.Ctx) {
 		return shapeUnknown
 	}
 	rets := astx.Returns(cw.Body)
+	retIndex := map[*ast.ReturnStmt]int{}
+	for i, r := range rets {
+		retIndex[r] = i
+	}
 	covered := map[[2]int64]bool{}
-	for i, ret := range rets {
-		key := fmt.Sprintf("chainWith/return#%d", i)
-		if len(ret.Results) != 1 {
-			c.Undecided(key, ret.Pos(), "arity")
-			continue
+	// per exit path: the value returned on that path (a result local is followed to what it was assigned
+	// last), classified and compared with [current]++list in every (current nil?, len) case that path admits
+	type verdict struct {
+		bad, undecided string
+		shown          string
+		paths          int
+	}
+	verdicts := map[int]*verdict{}
+	_, truncCW := astx.ForEachExit(info, cw.Body, func(s *astx.State, kind astx.ExitKind, ret *ast.ReturnStmt) {
+		if ret == nil {
+			return
 		}
-		sh := classify(ret.Results[0])
+		i, known := retIndex[ret]
+		if !known {
+			return
+		}
+		v := verdicts[i]
+		if v == nil {
+			v = &verdict{}
+			verdicts[i] = v
+		}
+		v.paths++
+		if len(ret.Results) != 1 {
+			v.undecided = "arity"
+			return
+		}
+		res := astx.Unparen(ret.Results[0])
+		if o := astx.ObjOf(info, res); o != nil && o != cur {
+			if rhs := s.LastAssigned(info, o); rhs != nil {
+				res = astx.Unparen(rhs)
+			}
+		}
+		v.shown = types.ExprString(res)
+		sh := classify(res)
 		if sh == shapeUnknown {
-			c.Undecided(key, ret.Pos(), "returned expression %s not classified", types.ExprString(ret.Results[0]))
-			continue
+			v.undecided = "returned expression " + types.ExprString(res) + " not classified"
+			return
 		}
 		if sh == shapeSwapped {
-			c.Violation(key, ret.Pos(), "returns newChain(append(list, current)): the earlier-declared group ends up after (inside) the later one")
-			continue
+			v.bad += " returns newChain(append(list, current)): the earlier-declared group ends up after (inside) the later one;"
+			return
 		}
-		dnf, trunc := astx.PathConditions(info, cw.Body, ret)
-		if trunc || len(dnf) == 0 {
-			c.Undecided(key, ret.Pos(), "no path condition")
-			continue
+		var conj []astx.Cond
+		for _, f := range s.Facts {
+			conj = append(conj, astx.Cond{Expr: f.Expr, Pol: f.Pol})
 		}
-		bad := ""
+		dnf := astx.DNF{conj}
 		for _, curNil := range []int64{0, 1} {
 			for n := int64(0); n <= 3; n++ {
 				env := astx.Env{
@@ -690,9 +720,8 @@ func chainConcatOrder(c *core.Ctx) {
 				}
 				reach, err := dnf.Eval(info, env, nil, nil)
 				if err != nil {
-					c.Undecided(key, ret.Pos(), "branch conditions not decidable: %v", err)
-					bad = "-"
-					break
+					v.undecided = fmt.Sprintf("branch conditions not decidable: %v", err)
+					return
 				}
 				if !reach {
 					continue
@@ -710,12 +739,24 @@ func chainConcatOrder(c *core.Ctx) {
 					okCase = true
 				}
 				if !okCase {
-					bad += fmt.Sprintf(" (current nil=%v, len=%d)", curNil == 1, n)
+					v.bad += fmt.Sprintf(" %s for (current nil=%v, len=%d);", types.ExprString(res), curNil == 1, n)
 				}
 			}
 		}
-		if bad != "-" {
-			c.Check(bad == "", key, ret.Pos(), "returns %s; equals [current]++list in every case that reaches it. wrong for:%s", types.ExprString(ret.Results[0]), bad)
+	})
+	if truncCW {
+		c.Undecided("chainWith/paths", cw.Pos(), "path enumeration truncated")
+	}
+	for i, ret := range rets {
+		key := fmt.Sprintf("chainWith/return#%d", i)
+		v := verdicts[i]
+		switch {
+		case v == nil:
+			c.Undecided(key, ret.Pos(), "no path reaches this return")
+		case v.undecided != "":
+			c.Undecided(key, ret.Pos(), "%s", v.undecided)
+		default:
+			c.Check(v.bad == "", key, ret.Pos(), "%d path(s) return here; each returns what equals [current]++list in every case that reaches it. wrong:%s", v.paths, v.bad)
 		}
 	}
 	c.Floor("chainWith return statements", len(rets), 1)
